@@ -10,6 +10,9 @@ pub enum DevSig {
     Cfg(usize),
     /// A signal the test knows nothing about
     Unknown,
+    /// A look-alike of configured signal .0 that differs from it in one attribute (see
+    /// `Fault::SubstituteTwin`): same name, not the same signal
+    Twin(usize, u8),
 }
 
 #[derive(Clone, Debug, PartialEq, Eq)]
@@ -197,6 +200,13 @@ impl DeviceSim {
                 Some(Fault::Substitute(p, s)) => {
                     if p < out.len() {
                         out[p].0 = DevSig::Cfg(s)
+                    }
+                }
+                Some(Fault::SubstituteTwin(p, k)) => {
+                    if p < out.len() {
+                        if let DevSig::Cfg(s) = out[p].0 {
+                            out[p].0 = DevSig::Twin(s, k)
+                        }
                     }
                 }
             }
